@@ -46,6 +46,8 @@ def clause_props(K, clause, cfg):
         out = {"C04"} | (set(K.vprops) - {"C05"}) | ({"C01"} if ("C01" in K.cprops and mode not in ("ie", "g1ie")) else set())
     elif clause.startswith(("V.", "R.")):
         out = set(K.vprops)
+        if clause == "V.output_value":
+            out = out | {"C04"}      # the public wire the proof speaks about carries the value the program was given
     elif clause.startswith(("T.", "N.")):
         out = set(K.tprops)
     elif clause.startswith("G."):
